@@ -317,6 +317,23 @@ def do_op(ctx, op, entry):
                         raise
                     except BaseException as ex:
                         rec.notes.append(("resubmit-raised", type(ex).__name__))
+            elif op[2] in ("shutdown", "shutdown_wait", "shutdown_kill"):
+                def cb(fut):
+                    rec.notes.append(("callback", op[1]))
+                    e2 = ctx["e"]
+                    try:
+                        e2.shutdown(wait=op[2] == "shutdown_wait", kill_workers=op[2] == "shutdown_kill")
+                        rec.notes.append(("callback-shutdown-returned", op[1]))
+                    except (SimAbort, SimKilled):
+                        raise
+                    except BaseException as ex:
+                        rec.notes.append(("callback-shutdown-raised", type(ex).__name__))
+                    del e2
+            elif op[2] == "add_callback":
+                # a callback that registers another callback on the (finished) future
+                def cb(fut):
+                    rec.notes.append(("callback", op[1]))
+                    fut.add_done_callback(lambda f2: rec.notes.append(("late-callback", op[1])))
             elif op[2] == "slow":
                 def cb(fut):
                     shims.sim_sleep(op[3])
@@ -369,8 +386,22 @@ def do_op(ctx, op, entry):
                 pass
     elif name == "with_exit":
         e = ctx["e"]
-        e.__exit__(None, None, None)
+        if len(op) > 1 and op[1] == "raise":
+            # the body of the with block raised: __exit__ receives the exception
+            try:
+                raise KeyError("body of the with block")
+            except KeyError as ex:
+                e.__exit__(KeyError, ex, ex.__traceback__)
+                del ex
+        else:
+            e.__exit__(None, None, None)
         del e
+    elif name == "late_callback":
+        # add_done_callback on a future that is already finished runs it at once
+        f = rec.futures.get(op[1])
+        if f is not None:
+            f.add_done_callback(lambda f2: rec.notes.append(("late-callback", op[1])))
+            entry["value"] = ("late-callback", op[1]) in rec.notes
     elif name == "sleep":
         shims.sim_sleep(op[1])
     elif name == "release":
@@ -391,6 +422,28 @@ def do_op(ctx, op, entry):
             entry["value"] = ("exc",) + _summ_exc(ex)
             del ex
         entry["expect"] = list(map(getattr(tasks, fn), *_iterables(lens, shape)))
+    elif name == "map_partial":
+        # the lazy result iterator of map() is consumed only partly and then dropped
+        key, fn, chunksize, lens, take = op[1], op[2], op[3], op[4], op[5]
+        e = ctx["e"]
+        it = e.map(getattr(tasks, fn), *_iterables(lens, "list"), chunksize=chunksize)
+        del e
+        got = []
+        try:
+            for _ in range(take):
+                got.append(next(it))
+            entry["value"] = ("val", got)
+        except (SimAbort, SimKilled):
+            raise
+        except StopIteration:
+            entry["value"] = ("val", got)
+        except BaseException as ex:
+            entry["value"] = ("exc",) + _summ_exc(ex)
+            del ex
+        if hasattr(it, "close"):
+            it.close()
+        del it
+        entry["expect"] = list(map(getattr(tasks, fn), *_iterables(lens, "list")))[:take]
     elif name == "kill":
         S.point(label="ext.kill")
         ws = [p for p in S.procs.values() if p.label.startswith("worker#") and p.alive]
